@@ -119,7 +119,7 @@ fn c13_card_parse_two_ascii() {
     // every two-character ASCII text: accepted iff (rank char, suit char), and then it is that card
     let b: [u8; 2] = kani::any();
     kani::assume(b[0] < 128 && b[1] < 128);
-    let s = std::str::from_utf8(&b).unwrap();
+    let s = unsafe { std::str::from_utf8_unchecked(&b) };   // ASCII by assumption
     let ri = RANK_CH.iter().position(|c| *c == b[0] as char);
     let si = SUIT_CH.iter().position(|c| *c == b[1] as char);
     kani::cover!(ri.is_some() && si.is_some());
@@ -134,7 +134,7 @@ fn c13_card_parse_two_ascii() {
 fn c13_card_parse_one_ascii() {
     let b: [u8; 1] = kani::any();
     kani::assume(b[0] < 128);
-    let s = std::str::from_utf8(&b).unwrap();
+    let s = unsafe { std::str::from_utf8_unchecked(&b) };   // ASCII by assumption
     kani::cover!(b[0] == b'A');
     assert!(Card::from_str(s).is_err());
 }
@@ -220,8 +220,8 @@ fn c14_pair_text_either_order() {
     let (ra, sa, rb, sb) = (any_rank_code(), any_suit_code(), any_rank_code(), any_suit_code());
     let ab = [RANK_CH[ra as usize] as u8, SUIT_CH[sa as usize] as u8, RANK_CH[rb as usize] as u8, SUIT_CH[sb as usize] as u8];
     let ba = [ab[2], ab[3], ab[0], ab[1]];
-    let s1 = std::str::from_utf8(&ab).unwrap();
-    let s2 = std::str::from_utf8(&ba).unwrap();
+    let s1 = unsafe { std::str::from_utf8_unchecked(&ab) };
+    let s2 = unsafe { std::str::from_utf8_unchecked(&ba) };
     kani::cover!(ra < rb);
     match (CardPair::from_str(s1), CardPair::from_str(s2)) {
         (Ok(p), Ok(q)) => {
@@ -232,50 +232,66 @@ fn c14_pair_text_either_order() {
     }
 }
 
-// ---------------- C09 (strings; BOUNDED: every byte string up to N bytes that is valid UTF-8) ----------------
+// ---------------- C09 (strings; BOUNDED: every ASCII string up to N bytes, and every such string with the
+// two-byte character 'é' at any offset; built with from_utf8_unchecked from bytes valid by construction) ------
 // The guards `len() == 2` / `len() != 4` send every longer input down a content-independent error path.
 
-#[kani::proof]
-#[kani::unwind(7)]
-fn c09_rank_suit_from_str_4() {
-    let bytes: [u8; 4] = kani::any();
+fn sym_str<const N: usize>(bytes: &mut [u8; N], multibyte: bool) -> usize {
     let len: usize = kani::any();
-    kani::assume(len <= 4);
-    if let Ok(s) = std::str::from_utf8(&bytes[..len]) {
-        kani::cover!(len == 4);
-        let r = Rank::from_str(s);
-        let t = Suit::from_str(s);
-        // first character decides; anything else is an error, never a panic
-        if len == 0 { assert!(r.is_err() && t.is_err()); }
+    kani::assume(len <= N);
+    let mut i = 0;
+    while i < N { kani::assume(bytes[i] < 128); i += 1; }
+    if multibyte {
+        let k: usize = kani::any();
+        kani::assume(k < N && k + 1 < len);
+        bytes[k] = 0xC3;
+        bytes[k + 1] = 0xA9;
     }
+    len
 }
 
 #[kani::proof]
 #[kani::unwind(7)]
-fn c09_card_from_str_4() {
-    let bytes: [u8; 4] = kani::any();
-    let len: usize = kani::any();
-    kani::assume(len <= 4);
-    if let Ok(s) = std::str::from_utf8(&bytes[..len]) {
-        kani::cover!(len == 2);
-        match Card::from_str(s) {
-            Ok(c) => assert!(len == 2 && bytes[0] as char == char::from(c.rank()) && bytes[1] as char == char::from(c.suit())),
-            Err(_) => {}
-        }
+fn c09_rank_suit_card_from_str_4() {
+    let mut bytes: [u8; 4] = kani::any();
+    let mb: bool = kani::any();
+    let len = sym_str::<4>(&mut bytes, mb);
+    let s = unsafe { std::str::from_utf8_unchecked(&bytes[..len]) };
+    kani::cover!(len == 2 && !mb);
+    kani::cover!(len == 2 && mb);
+    let r = Rank::from_str(s);
+    let t = Suit::from_str(s);
+    if len == 0 { assert!(r.is_err() && t.is_err()); }
+    match Card::from_str(s) {
+        Ok(c) => assert!(len == 2 && !mb && bytes[0] as char == char::from(c.rank()) && bytes[1] as char == char::from(c.suit())),
+        Err(_) => {}
     }
 }
 
 #[kani::proof]
 #[kani::unwind(9)]
 fn c09_cardpair_from_str_6() {
-    let bytes: [u8; 6] = kani::any();
-    let len: usize = kani::any();
-    kani::assume(len <= 6);
-    if let Ok(s) = std::str::from_utf8(&bytes[..len]) {
-        kani::cover!(len == 4);
-        match CardPair::from_str(s) {
-            Ok(p) => assert!(len == 4 && p[0] <= p[1]),
-            Err(_) => {}
-        }
+    let mut bytes: [u8; 6] = kani::any();
+    let mb: bool = kani::any();
+    let len = sym_str::<6>(&mut bytes, mb);
+    let s = unsafe { std::str::from_utf8_unchecked(&bytes[..len]) };
+    kani::cover!(len == 4 && mb);
+    match CardPair::from_str(s) {
+        Ok(p) => assert!(len == 4 && !mb && p[0] <= p[1]),
+        Err(_) => {}
     }
+}
+
+// ---------------- C10: the product of two weights in [0, 1] is in [0, 1] (binary32, complete) ----------------
+#[kani::proof]
+fn c10_f32_product_unit_interval() {
+    let a: f32 = kani::any();
+    let b: f32 = kani::any();
+    kani::assume(a >= 0.0 && a <= 1.0 && b >= 0.0 && b <= 1.0);
+    kani::cover!(a == 0.5 && b == 0.25);
+    let mut p: f32 = 1.0;
+    p *= a;
+    assert!(p == a);
+    p *= b;
+    assert!(p >= 0.0 && p <= 1.0);
 }
